@@ -358,3 +358,35 @@ def c20_g4(repo, res, rule="G4"):
             res.add(Finding(rule, modname.replace(".", "/") + ".py", qual, f"{where} <- {','.join(ps)}", "the caller's dictionary is captured by reference", line))
         if ret_alias:
             res.add(Finding(rule, modname.replace(".", "/") + ".py", qual, f"returns {ret_alias}", "the caller's dictionary is returned (and stored by the caller) un-copied"))
+
+
+# ------------------------------------------------------------------------------------------------ core API
+def core_mutations(repo, res, rule="W5"):
+    """every function exported by magpylib.core leaves the arrays it is given unchanged (they are called directly by users)"""
+    from repo import lit as _lit
+    core = repo.mod("magpylib.core")
+    names = _lit(core.assigns.get("__all__"))
+    if not isinstance(names, (list, tuple)) or len(names) < 8:
+        raise AnalysisError("magpylib.core.__all__ vanished")
+    n = 0
+    for name in names:
+        r = repo.resolve_name(core, name)
+        if not r or r[0] != "func":
+            raise AnalysisError(f"{rule}: cannot resolve magpylib.core.{name}")
+        m, fn = r[1], r[2]
+        a = fn.args
+        params = [x.arg for x in a.posonlyargs + a.args + a.kwonlyargs]
+        ndef = len(a.defaults)
+        pos = [x.arg for x in a.posonlyargs + a.args]
+        required = set(pos[: len(pos) - ndef]) | {x.arg for x, d in zip(a.kwonlyargs, a.kw_defaults) if d is None}
+        bind = {p: O({"P:" + p}) for p in params if p in required}
+        out, dom, it = run_node(m.name, fn, bind, name=name)
+        n += 1
+        res.evaluations += 1
+        mut = [x for x in dom.mutations if x[0].startswith("P:")]
+        res.ob(f"{rule}:core.{name}", not mut, {"rule": rule, "function": name, "in_place_sinks_on_arguments": [x[4] for x in mut],
+                                                "skipped_statements": len(getattr(it, "skipped", []))})
+        for org, where, line, how, txt in mut:
+            res.add(Finding(rule, m.rel, name, txt, f"the exported core function modifies its argument {org[2:]} in place ({how}): the caller's array is "
+                            "changed, so a following call through any interface computes something else", line))
+    res.analysed[f"{rule}_core_functions"] = n
